@@ -307,6 +307,7 @@ type FakeAction struct {
 	Status int    // for http
 	Raw    string // for raw: bytes of the HTTP body / the SSE data / the stdio line ({{id}} is replaced)
 	Code   int    // for rpc-error
+	CT     string // for raw on Streamable HTTP: the Content-Type of the response
 }
 
 // DefaultResult is the valid result the scripted peers give for a method.
@@ -436,7 +437,11 @@ func (f *FakeServer) ServeHTTP(w http.ResponseWriter, r *http.Request) {
 		for {
 			select {
 			case fr := <-ch:
-				fmt.Fprintf(w, "id: g%d\ndata: %s\n\n", time.Now().UnixNano(), fr)
+				if strings.HasPrefix(fr, "RAW:") {
+					io.WriteString(w, fr[4:])
+				} else {
+					fmt.Fprintf(w, "id: g%d\ndata: %s\n\n", time.Now().UnixNano(), fr)
+				}
 				w.(http.Flusher).Flush()
 			case <-r.Context().Done():
 				return
@@ -472,6 +477,16 @@ func (f *FakeServer) ServeHTTP(w http.ResponseWriter, r *http.Request) {
 	}
 	if act.Kind == "http" {
 		http.Error(w, "scripted status", act.Status)
+		return
+	}
+	if act.Kind == "raw" && kind == "request" {
+		ct := act.CT
+		if ct == "" {
+			ct = "application/json"
+		}
+		w.Header().Set("Content-Type", ct)
+		w.WriteHeader(200)
+		io.WriteString(w, renderRaw(act.Raw, method, m.ID, m.Params))
 		return
 	}
 	if kind != "request" {
@@ -518,7 +533,11 @@ func (f *FakeServer) serveLegacy(w http.ResponseWriter, r *http.Request) {
 		for {
 			select {
 			case fr := <-ch:
-				fmt.Fprintf(w, "event: message\ndata: %s\n\n", fr)
+				if strings.HasPrefix(fr, "RAW:") {
+					io.WriteString(w, fr[4:])
+				} else {
+					fmt.Fprintf(w, "event: message\ndata: %s\n\n", fr)
+				}
 				w.(http.Flusher).Flush()
 			case <-r.Context().Done():
 				return
@@ -547,7 +566,9 @@ func (f *FakeServer) serveLegacy(w http.ResponseWriter, r *http.Request) {
 			return
 		}
 		w.WriteHeader(http.StatusAccepted)
-		if kind == "request" && act.Kind != "silent" {
+		if kind == "request" && act.Kind == "raw" {
+			ch <- "RAW:" + strings.ReplaceAll(renderRaw(act.Raw, method, m.ID, m.Params), "{{endpoint}}", "/message?sessionId="+sid)
+		} else if kind == "request" && act.Kind != "silent" {
 			if fr := RenderAnswer(act, method, m.ID, m.Params); fr != "" {
 				ch <- fr
 			}
@@ -609,4 +630,14 @@ func (s *statusWriter) Flush() {
 	if f, ok := s.ResponseWriter.(http.Flusher); ok {
 		f.Flush()
 	}
+}
+
+// renderRaw substitutes {{id}} and {{valid}} (the valid JSON-RPC answer frame) in a raw script.
+func renderRaw(raw, method string, id, params json.RawMessage) string {
+	valid := RenderAnswer(FakeAction{}, method, id, params)
+	// the valid frame split after its first member: a multi-line rendering of the same JSON value
+	cut := strings.Index(valid, ",") + 1
+	raw = strings.ReplaceAll(raw, "{{valid-a}}", valid[:cut])
+	raw = strings.ReplaceAll(raw, "{{valid-b}}", valid[cut:])
+	return strings.ReplaceAll(strings.ReplaceAll(raw, "{{valid}}", valid), "{{id}}", string(id))
 }
